@@ -428,6 +428,7 @@ type Fetcher struct {
 	Avail map[string]bool // nil: everything available
 	Log   *Log
 	Keys  map[string]eval.VariableKey // expected key per registered name (nil: not checked)
+	Raw   bool                        // hand integers over as Go int instead of int64 (a fetcher is free to do so; the engine then sees a value no operator but eq/ne accepts)
 }
 
 func NewFetcher(u *Universe, cc *eval.Config, log *Log) *Fetcher {
@@ -457,6 +458,9 @@ func (f *Fetcher) Get(k eval.VariableKey, s string) (eval.Value, error) {
 	v, ok := f.Vars[s]
 	if !ok {
 		return nil, m.ErrUnbound
+	}
+	if i, isInt := v.(int64); isInt && f.Raw && hash64(s)%2 == 0 {
+		return int(i), nil
 	}
 	return v, nil
 }
